@@ -20,10 +20,11 @@ def m2eLoop : Nat → R → R → R → R → Option R
   | 0, _, _, _, _ => none
   | fuel + 1, e, M, X, X1 => m2eContinue X1 X (m2eLoop fuel e M X1 (m2eNext X1 e M)) (some X1)
 
-/-- `Form.M2E(e, M)` -/
+/-- `Form.M2E(e, M)`: reduce M (ellipse), choose the start value, iterate, add the revolutions back -/
 def m2e (fuel : Nat) (e M : R) : Option R :=
+  let Mr := m2eReduced e M
   let X := m2eStart e M
-  m2eLoop fuel e M X (m2eNext X e M)
+  (m2eLoop fuel e Mr X (m2eNext X e Mr)).map (fun X1 => m2eFinish e X1 (m2eExtra e M))
 
 /-- `Form._keplerian_mean_to_keplerian_eccentric` -/
 def meanToEcc (fuel : Nat) (mu a e i Ω ω M : R) : Option (List R) :=
